@@ -36,6 +36,8 @@ def plan(tier: str, seed: int) -> list[dict]:
     shards.append({"kind": "suite"})
     for k in range(4):
         shards.append({"kind": "sized", "rem": k, "mod": 4, "tier": tier})
+    for k in range(2 if tier == "quick" else 8):
+        shards.append({"kind": "fixed_points", "k": k, "n": 4 if tier == "quick" else 12})
     return shards
 
 
@@ -167,6 +169,7 @@ def variants_of(base: bytes, rng, ctx, exhaustive_flips: bool) -> None:
     check_variant(p1_gen.with_checksum_text(base, b""), True, ctx, rng, "no_checksum")
     ident_variants(base, rng, ctx)
     end_character_in_ident_variants(base, rng, ctx)
+    wrong_span_variants(base, rng, ctx)
     data_variants(base, rng, ctx)
     for text, label in ((0, "0000"), (1, "0001"), (0xFFFF, "FFFF"), (((good & 0xFF) << 8) | (good >> 8), "byte_swapped"), (good ^ 0xFFFF, "complemented"), ((good + 1) & 0xFFFF, "plus1"), ((good - 1) & 0xFFFF, "minus1"),
                         (good ^ (1 << rng.randrange(16)), "one_bit"), (rng.randrange(65536), "random")):
@@ -338,6 +341,45 @@ def end_character_in_ident_variants(base: bytes, rng, ctx) -> None:
                 ctx.count("constructor_raised")
 
 
+def wrong_span_variants(base: bytes, rng, ctx) -> None:
+    """The transmitted checksum is the CRC16 of *another span* of the readout (the data block alone, everything before the end character,
+    the identification line alone, everything after it): right for that span, wrong for '/'..'!'."""
+    lf, bang = base.find(b"\n"), base.rfind(b"!")
+    good = p1_gen.correct_checksum(base)
+    for label, span in (("data_block_and_end_character", base[lf + 1 : bang + 1]), ("before_end_character", base[:bang]), ("identification_line", base[: lf + 1]),
+                        ("data_block", base[lf + 1 : bang]), ("whole_readout_with_old_checksum", base)):
+        c = crc16.crc16(span)
+        if c != good:
+            check_variant(p1_gen.with_checksum_text(base, b"%04X" % c), False, ctx, rng, "cs_crc_of_" + label)
+
+
+def run_fixed_points(shard: dict, ctx) -> None:
+    """Readouts whose checksum text is the CRC16 of a span that *contains the checksum text itself* (the whole readout, the whole first
+    line): found by searching the 65 536 candidates for a fixed point."""
+    from han.dlde import DataReadout
+
+    rng = ctx.rng("c04", "fixed", shard.get("k", 0))
+    found = 0
+    for _ in range(shard["n"]):
+        ident = p1_ref.strict_ident(rng)[0]
+        shape = rng.choice(("end_character_in_ident", "end_character_in_ident", "with_data"))
+        eol = rng.choice((b"\r\n", b"\n"))
+        head = ident[: rng.randrange(5, len(ident) + 1)] + b"!" if shape == "end_character_in_ident" else ident + eol + b"1-0:1.8.0(%06d.%03d*kWh)" % (rng.randrange(10**6), rng.randrange(1000)) + eol + b"!"
+        state = crc16.crc16(head)
+        for h in range(0x10000):
+            if h != state and crc16.crc16(b"%04X" % h + eol, state) == h:
+                r = head + b"%04X" % h + eol
+                found += 1
+                ctx.count("readouts_whose_checksum_is_the_crc_of_the_whole_readout")
+                case = {"readout": r, "label": "fixed_point", "expect_valid": None}
+                d, ex = p1_mon.safe(lambda: DataReadout(r))
+                if ex is None:
+                    judge(d.as_bytes, p1_mon.observe(d), ctx, dict(case, via="direct"), None, "DataReadout(bytes)")
+                ctx.case(b"fixed" + r, True)
+                break
+    ctx.count("fixed_point_searches", shard["n"])
+
+
 def find_zero_crc(rng, ctx):
     """A strict readout whose true CRC is 0x0000 (search over a free 5-character value)."""
     ident, _, _ = p1_ref.strict_ident(rng)
@@ -360,6 +402,8 @@ def run(shard: dict, ctx) -> None:
         return
     if shard["kind"] == "sized":
         return run_sized(shard, ctx)
+    if shard["kind"] == "fixed_points":
+        return run_fixed_points(shard, ctx)
     rng = ctx.rng("c04", shard["kind"])
     if shard["kind"] == "zero_crc":
         for _ in range(shard["n"]):
